@@ -110,9 +110,9 @@ Proof. intros. rewrite firstn_firstn. rewrite Nat.min_l by assumption. reflexivi
 (* 2. the model refines the specification monitor                                              *)
 Definition content (b : ix_buf) : list N := firstn (b_fill b) (b_mem b).
 
-Lemma sp_ext : forall a1 a2 a3 a4 a5 a6 a7 a8 b1 b2 b3 b4 b5 b6 b7 b8,
-  a1 = b1 -> a2 = b2 -> a3 = b3 -> a4 = b4 -> a5 = b5 -> a6 = b6 -> a7 = b7 -> a8 = b8 ->
-  Build_sp_state a1 a2 a3 a4 a5 a6 a7 a8 = Build_sp_state b1 b2 b3 b4 b5 b6 b7 b8.
+Lemma sp_ext : forall a1 a2 a3 a4 a5 a6 a7 a8 a9 b1 b2 b3 b4 b5 b6 b7 b8 b9,
+  a1 = b1 -> a2 = b2 -> a3 = b3 -> a4 = b4 -> a5 = b5 -> a6 = b6 -> a7 = b7 -> a8 = b8 -> a9 = b9 ->
+  Build_sp_state a1 a2 a3 a4 a5 a6 a7 a8 a9 = Build_sp_state b1 b2 b3 b4 b5 b6 b7 b8 b9.
 Proof. intros; subst; reflexivity. Qed.
 
 Section Refine.
@@ -127,16 +127,22 @@ Section Refine.
 
   (* ghost bits: acc = the host has already taken the packet in the read buffer; rt = that packet has timed
      out and is to be sent again; got = the host received its latest transmission *)
-  Definition ghost (st : ix_state) (acc rt got : bool) : Prop :=
+  (* fl = flush has been asserted since the previous packet completed.  A packet that is not a retry is full, or
+     empty (the owed ZLP), or ends the transfer, or was queued by a flush *)
+  Definition shape_ok (b : ix_buf) (rt fl : bool) : Prop :=
+    rt = false -> (b_fill b =? mps)%nat || (b_fill b =? 0)%nat || b_end b || fl = true.
+
+  Definition ghost (st : ix_state) (acc rt got fl : bool) : Prop :=
     match x_fsm st with
     | WFD => acc = true /\ b_fill (x_r st) = 0%nat /\ w_ready mps st = true /\ x_first st = false
-    | WTS => (acc = true -> rt = true) /\ x_first st = false
+    | WTS => (acc = true -> rt = true) /\ x_first st = false /\ shape_ok (x_r st) rt fl
     | SEND => (acc = true -> rt = true) /\ (x_pos st < b_fill (x_r st))%nat /\
-              x_first st = (x_pos st =? 0)%nat /\ b_rd (x_r st) = nth (x_pos st) (b_mem (x_r st)) 0%N
+              x_first st = (x_pos st =? 0)%nat /\ b_rd (x_r st) = nth (x_pos st) (b_mem (x_r st)) 0%N /\
+              shape_ok (x_r st) rt fl
     | WFA => (got = true -> acc = true) /\ x_first st = false
     end.
 
-  Definition abs (st : ix_state) (acc rt got : bool) (lin lhost : list N) : sp_state :=
+  Definition abs (st : ix_state) (acc rt got : bool) (lin lhost : list N) (fl : bool) : sp_state :=
     let r := x_r st in let w := x_w st in
     {| s_pend := (if acc then [] else flag (content r) (b_end r)) ++ flag (content w) (b_end w);
        s_h := xorb (x_pid st) acc;
@@ -147,7 +153,7 @@ Section Refine.
                   | _ => None
                   end;
        s_zlp := if acc then (b_fill r =? mps)%nat && b_end r else (b_fill r =? 0)%nat;
-       s_in := lin; s_host := lhost |}.
+       s_in := lin; s_host := lhost; s_fl := fl |}.
 
   (* what the stream hands over in this cycle *)
   Definition bg_new (st : ix_state) (i : ix_in) : list (N * bool) :=
@@ -174,22 +180,23 @@ Section Refine.
   Qed.
 
   (* the host side of a completing packet *)
-  Lemma complete_abs : forall (X : list (N * bool)) (pid acc rt rcv e : bool) (Rb : list N)
+  Lemma complete_abs : forall (X : list (N * bool)) (pid acc rt rcv e fl : bool) (Rb : list N)
       (cur : option (list N)) (wt : option (N * list N * bool)) (lin lhost : list N),
     (length Rb <= mps)%nat -> (acc = true -> rt = true) ->
+    (rt = false -> (length Rb =? mps)%nat || (length Rb =? 0)%nat || e || fl = true) ->
     let s := {| s_pend := (if acc then [] else flag Rb e) ++ X; s_h := xorb pid acc; s_cur := cur; s_wait := wt;
                 s_retry := if rt then Some (b2n pid, Rb) else None;
                 s_zlp := if acc then (length Rb =? mps)%nat && e else (length Rb =? 0)%nat;
-                s_in := lin; s_host := lhost |} in
+                s_in := lin; s_host := lhost; s_fl := fl |} in
     let acc' := acc || rcv in
     complete mps s (if rt then Some (b2n pid, Rb) else None) (b2n pid) Rb rcv =
     ({| s_pend := (if acc' then [] else flag Rb e) ++ X; s_h := xorb pid acc'; s_cur := None;
         s_wait := Some (b2n pid, Rb, rcv); s_retry := None;
         s_zlp := if acc' then (length Rb =? mps)%nat && e else (length Rb =? 0)%nat;
-        s_in := lin; s_host := if rcv && negb acc then lhost ++ Rb else lhost |}, true).
+        s_in := lin; s_host := if rcv && negb acc then lhost ++ Rb else lhost; s_fl := false |}, true).
   Proof.
-    intros X pid acc rt rcv e Rb cur wt lin lhost HL Hrt. cbv zeta.
-    unfold complete. cbn [s_pend s_h s_zlp s_in s_host].
+    intros X pid acc rt rcv e fl Rb cur wt lin lhost HL Hrt Hsh. cbv zeta.
+    unfold complete. cbn [s_pend s_h s_zlp s_in s_host s_fl].
     assert (Epid : forall a b : bool, (b2n a =? b2n b) = Bool.eqb a b) by (intros [] []; reflexivity).
     rewrite Epid.
     assert (HLb : (length Rb <=? mps)%nat = true) by (apply Nat.leb_le; exact HL).
@@ -198,19 +205,30 @@ Section Refine.
     - (* already taken: whatever arrives now is a duplicate *)
       rewrite (Hrt eq_refl). rewrite N.eqb_refl, bytes_eqb_refl.
       replace (Bool.eqb pid (xorb pid true)) with false by (destruct pid; reflexivity).
-      rewrite andb_false_r. cbn [orb andb negb xorb]. rewrite andb_false_r. reflexivity.
+      rewrite andb_false_r. cbn [orb andb negb xorb]. rewrite ?andb_false_r. reflexivity.
     - rewrite xorb_false_r. rewrite eqb_reflx. cbn [orb]. rewrite andb_true_r.
+      assert (F1 : firstn (length Rb) (flag Rb e ++ X) = flag Rb e)
+        by (rewrite <- (length_flag Rb e) at 1; apply firstn_app_exact).
+      assert (S1 : skipn (length Rb) (flag Rb e ++ X) = X)
+        by (rewrite <- (length_flag Rb e) at 1; apply skipn_app_exact).
+      rewrite F1, S1.
       assert (Vp : (match (if rt then Some (b2n pid, Rb) else None) with
                     | Some (p0, bs0) => (b2n pid =? p0) && bytes_eqb Rb bs0
                     | None => true end) = true)
         by (destruct rt; [rewrite N.eqb_refl, bytes_eqb_refl|]; reflexivity).
+      assert (Vs : (match (if rt then Some (b2n pid, Rb) else None) with
+                    | Some _ => true
+                    | None => (length Rb =? mps)%nat ||
+                              (if (length Rb =? 0)%nat then (length Rb =? 0)%nat else ends_with_last (flag Rb e) || fl)
+                    end) = true).
+      { destruct rt; [reflexivity|]. specialize (Hsh eq_refl).
+        destruct (length Rb =? mps)%nat; [reflexivity|]. cbn [orb] in *.
+        destruct (length Rb =? 0)%nat eqn:E0; [reflexivity|].
+        rewrite ends_with_last_flag; [exact Hsh|]. intros ->. discriminate. }
+      rewrite Vp, Vs.
       destruct rcv.
       + cbn [negb andb orb].
-        assert (F1 : firstn (length Rb) (flag Rb e ++ X) = flag Rb e)
-          by (rewrite <- (length_flag Rb e) at 1; apply firstn_app_exact).
-        assert (S1 : skipn (length Rb) (flag Rb e ++ X) = X)
-          by (rewrite <- (length_flag Rb e) at 1; apply skipn_app_exact).
-        rewrite F1, S1, Vp. rewrite map_fst_flag, bytes_eqb_refl, last_only_flag.
+        rewrite map_fst_flag, bytes_eqb_refl, last_only_flag.
         rewrite app_length, length_flag.
         assert (H1 : (length Rb <=? length Rb + length X)%nat = true) by (apply Nat.leb_le; lia).
         rewrite H1.
@@ -219,7 +237,7 @@ Section Refine.
         destruct Rb as [|b0 t0].
         * cbn [length]. destruct mps; [lia|]. reflexivity.
         * rewrite ends_with_last_flag by discriminate. reflexivity.
-      + cbn [negb andb orb]. rewrite Vp. cbn [andb]. rewrite xorb_false_r. reflexivity.
+      + cbn [negb andb orb]. rewrite xorb_false_r. reflexivity.
   Qed.
 
   Notation nxt := (ix_next true true mps ep).
@@ -268,41 +286,85 @@ Section Refine.
   Lemma content_fill0 : forall b, b_fill b = 0%nat -> content b = [].
   Proof. intros b H. unfold content. rewrite H. reflexivity. Qed.
 
-  Lemma add_stream_mk : forall b i P h c w r z lin lh,
-    add_stream b i (Build_sp_state P h c w r z lin lh) =
+  Lemma add_stream_mk : forall b i P h c w r z lin lh f,
+    add_stream b i (Build_sp_state P h c w r z lin lh f) =
     Build_sp_state (P ++ if b then [(i_payload i, i_last i)] else []) h c w r z
-                   (if b then lin ++ [i_payload i] else lin) lh.
+                   (if b then lin ++ [i_payload i] else lin) lh f.
   Proof. intros [] *; unfold add_stream; cbn; rewrite ?app_nil_r; reflexivity. Qed.
+
+  (* V6: the module is ready whenever the pending stream cannot even fill its write buffer *)
+  Lemma rdy_ok : forall st acc rt got lin lhost fl i, wfm st ->
+    ready_ok mps (abs st acc rt got lin lhost fl) (ix_outf mps ep st i) = true.
+  Proof.
+    intros st acc rt got lin lhost fl i (Hlw & Hlr & Hfw & Hfr & Hew).
+    unfold ready_ok, abs, ix_outf. cbn [s_pend o_ready].
+    destruct (w_ready mps st) eqn:Hr; [apply orb_true_r|]. rewrite orb_false_r.
+    unfold packet_due. rewrite app_length, existsb_app, !length_flag, (content_length (x_w st)) by lia.
+    unfold w_ready in Hr.
+    destruct (b_fill (x_w st) =? mps)%nat eqn:E.
+    - apply Nat.eqb_eq in E. apply orb_true_iff. left. apply Nat.leb_le. lia.
+    - cbn [negb andb] in Hr. apply negb_false_iff in Hr. rewrite Hr, (existsb_snd_flag (content (x_w st)) true).
+      pose proof (Hew Hr) as H1.
+      assert (Hc : content (x_w st) <> []).
+      { intro Hc. apply (f_equal (@length N)) in Hc. rewrite content_length in Hc by lia. cbn in Hc. lia. }
+      destruct (content (x_w st)); [contradiction|]. cbn [andb negb]. rewrite !orb_true_r. reflexivity.
+  Qed.
 
   Definition lin_new (st : ix_state) (i : ix_in) (lin : list N) : list N :=
     if w_en mps st i then lin ++ [i_payload i] else lin.
 
-  Lemma step_WFD : forall st acc rt got lin lhost i, x_fsm st = WFD -> wfm st -> ghost st acc rt got ->
-    c11_env ep (abs st acc rt got lin lhost) i = true ->
-    exists acc' rt' got' lin' lhost',
-      c11_mon mps ep (abs st acc rt got lin lhost) i (ix_outf mps ep st i)
-      = Some (abs (nxt st i) acc' rt' got' lin' lhost', true)
-      /\ wfm (nxt st i) /\ ghost (nxt st i) acc' rt' got'.
+  Lemma shape_mono : forall b rt fl f, shape_ok b rt fl -> shape_ok b rt (fl || f).
+  Proof. intros b rt fl f H Hr. specialize (H Hr). rewrite orb_assoc, H. reflexivity. Qed.
+
+  Lemma shape_r_bg : forall st i rt fl, shape_ok (x_r st) rt fl -> shape_ok (r_bg true mps st i) rt fl.
+  Proof. intros st i rt fl H. exact H. Qed.
+
+  (* a buffer that is swapped in is full, or ended, or was queued by a flush *)
+  Lemma swap_shape : forall st i rt fl, wfm st -> negb (w_ready mps st) || packet_ready mps st i = true ->
+    shape_ok (w_bg mps st i) rt (fl || i_flush i).
   Proof.
-    intros st acc rt got lin lhost i Hf Hw Hg He.
+    intros st i rt fl Hw H _. destruct (bg_write st i Hw) as (B1 & B2 & B3 & B4 & B5 & B6).
+    pose proof Hw as (Hlw & Hlr & Hfw & Hfr & Hew).
+    destruct (w_ready mps st) eqn:Hrdy.
+    - cbn [negb orb] in H. unfold packet_ready, packet_completing, packet_to_flush in H.
+      destruct (i_flush i); [rewrite !orb_true_r; reflexivity|]. cbn [andb] in H. rewrite orb_false_r in H.
+      apply andb_true_iff in H as [Hv Hc].
+      unfold w_bg, w_en. rewrite Hv, Hrdy. cbn [andb b_fill b_end].
+      apply orb_true_iff in Hc as [Hl|Hn].
+      + rewrite Hl. rewrite !orb_true_r. reflexivity.
+      + rewrite Hn. reflexivity.
+    - assert (Ew : w_en mps st i = false) by (unfold w_en; rewrite Hrdy; apply andb_false_r).
+      destruct (B6 Ew) as [E1 E2]. rewrite E1, E2.
+      unfold w_ready in Hrdy. destruct (b_fill (x_w st) =? mps)%nat; [reflexivity|].
+      cbn [negb andb] in Hrdy. apply negb_false_iff in Hrdy. rewrite Hrdy. rewrite !orb_true_r. reflexivity.
+  Qed.
+
+  Lemma step_WFD : forall st acc rt got lin lhost fl i, x_fsm st = WFD -> wfm st -> ghost st acc rt got fl ->
+    c11_env ep (abs st acc rt got lin lhost fl) i = true ->
+    exists acc' rt' got' lin' lhost' fl',
+      c11_mon mps ep (abs st acc rt got lin lhost fl) i (ix_outf mps ep st i)
+      = Some (abs (nxt st i) acc' rt' got' lin' lhost' fl', true)
+      /\ wfm (nxt st i) /\ ghost (nxt st i) acc' rt' got' fl'.
+  Proof.
+    intros st acc rt got lin lhost fl i Hf Hw Hg He.
     destruct (bg_write st i Hw) as (B1 & B2 & B3 & B4 & B5 & B6).
     unfold ghost in Hg. rewrite Hf in Hg. destruct Hg as (-> & Hr0 & Hrdy & Hfirst).
     destruct (env_facts _ _ He) as (Hclr & _ & _).
     pose proof (not_due st Hw Hrdy) as Hnd.
     pose proof Hw as (Hlw & Hlr & Hfw & Hfr & Hew).
-    assert (Ea : abs st true rt got lin lhost =
+    assert (Ea : abs st true rt got lin lhost fl =
       {| s_pend := flag (content (x_w st)) (b_end (x_w st)); s_h := xorb (x_pid st) true; s_cur := None;
-         s_wait := None; s_retry := None; s_zlp := false; s_in := lin; s_host := lhost |}).
+         s_wait := None; s_retry := None; s_zlp := false; s_in := lin; s_host := lhost; s_fl := fl |}).
     { unfold abs. rewrite Hf, Hr0. apply sp_ext; try reflexivity.
       destruct mps; [lia|]. reflexivity. }
-    unfold c11_mon. rewrite He. rewrite Ea. cbn [negb].
+    unfold c11_mon. rewrite He. rewrite (rdy_ok st _ rt got lin lhost fl i Hw). rewrite Ea. cbn [negb].
     assert (Et : tx_phase mps ep
         {| s_pend := flag (content (x_w st)) (b_end (x_w st)); s_h := xorb (x_pid st) true; s_cur := None;
-           s_wait := None; s_retry := None; s_zlp := false; s_in := lin; s_host := lhost |}
+           s_wait := None; s_retry := None; s_zlp := false; s_in := lin; s_host := lhost; s_fl := fl |}
         (hs_phase {| s_pend := flag (content (x_w st)) (b_end (x_w st)); s_h := xorb (x_pid st) true; s_cur := None;
-           s_wait := None; s_retry := None; s_zlp := false; s_in := lin; s_host := lhost |} i) i (ix_outf mps ep st i)
+           s_wait := None; s_retry := None; s_zlp := false; s_in := lin; s_host := lhost; s_fl := fl |} i) i (ix_outf mps ep st i)
       = ({| s_pend := flag (content (x_w st)) (b_end (x_w st)); s_h := xorb (x_pid st) true; s_cur := None;
-           s_wait := None; s_retry := None; s_zlp := false; s_in := lin; s_host := lhost |}, true)).
+           s_wait := None; s_retry := None; s_zlp := false; s_in := lin; s_host := lhost; s_fl := fl || i_flush i |}, true)).
     { unfold tx_phase, hs_phase, ix_outf. rewrite Hf.
       cbn [s_pend s_h s_cur s_wait s_retry s_zlp s_in s_host o_ready o_valid o_first o_last o_nak o_pid o_payload].
       change (s_tok ep i) with (tok ep i). rewrite Hnd.
@@ -311,7 +373,7 @@ Section Refine.
     replace (o_ready (ix_outf mps ep st i)) with (w_ready mps st) by (unfold ix_outf; reflexivity).
     change (i_valid i && w_ready mps st) with (w_en mps st i).
     rewrite add_stream_mk.
-    exists (negb (packet_ready mps st i)), false, false, (lin_new st i lin), lhost.
+    exists (negb (packet_ready mps st i)), false, false, (lin_new st i lin), lhost, (fl || i_flush i).
     unfold ix_next. rewrite Hf, Hclr. cbn [andb].
     destruct (packet_ready mps st i) eqn:Hpr; cbn [negb].
     - (* swap *)
@@ -331,7 +393,8 @@ Section Refine.
         * destruct (x_pid st); reflexivity.
         * destruct (b_fill (w_bg mps st i)); [lia | reflexivity].
       + unfold wfm. cbn [x_w x_r clr_end r_bg b_fill b_end b_mem]. repeat split; try assumption; try lia.
-      + unfold ghost. cbn [x_fsm x_first]. split; [discriminate | exact Hfirst].
+      + unfold ghost. cbn [x_fsm x_first x_r]. split; [discriminate | split; [exact Hfirst|]].
+        apply swap_shape; [exact Hw | rewrite Hpr; apply orb_true_r].
     - split; [|split].
       + f_equal. f_equal. unfold abs.
         cbn [x_fsm x_pid x_w x_r x_pos].
@@ -358,16 +421,16 @@ Section Refine.
     cbn [N.to_nat]. destruct mps; [lia | reflexivity].
   Qed.
 
-  Lemma step_WTS : forall st acc rt got lin lhost i, x_fsm st = WTS -> wfm st -> ghost st acc rt got ->
-    c11_env ep (abs st acc rt got lin lhost) i = true ->
-    exists acc' rt' got' lin' lhost',
-      c11_mon mps ep (abs st acc rt got lin lhost) i (ix_outf mps ep st i)
-      = Some (abs (nxt st i) acc' rt' got' lin' lhost', true)
-      /\ wfm (nxt st i) /\ ghost (nxt st i) acc' rt' got'.
+  Lemma step_WTS : forall st acc rt got lin lhost fl i, x_fsm st = WTS -> wfm st -> ghost st acc rt got fl ->
+    c11_env ep (abs st acc rt got lin lhost fl) i = true ->
+    exists acc' rt' got' lin' lhost' fl',
+      c11_mon mps ep (abs st acc rt got lin lhost fl) i (ix_outf mps ep st i)
+      = Some (abs (nxt st i) acc' rt' got' lin' lhost' fl', true)
+      /\ wfm (nxt st i) /\ ghost (nxt st i) acc' rt' got' fl'.
   Proof.
-    intros st acc rt got lin lhost i Hf Hw Hg He.
+    intros st acc rt got lin lhost fl i Hf Hw Hg He.
     destruct (bg_write st i Hw) as (B1 & B2 & B3 & B4 & B5 & B6).
-    unfold ghost in Hg. rewrite Hf in Hg. destruct Hg as (Hrt & Hfirst).
+    unfold ghost in Hg. rewrite Hf in Hg. destruct Hg as (Hrt & Hfirst & Hsh).
     destruct (env_facts _ _ He) as (Hclr & _ & _).
     pose proof Hw as (Hlw & Hlr & Hfw & Hfr & Hew).
     pose proof (content_length (x_r st) ltac:(lia)) as HLR.
@@ -376,15 +439,18 @@ Section Refine.
     set (RT := if rt then Some (b2n (x_pid st), content (x_r st)) else None) in *.
     set (Z := if acc then (length (content (x_r st)) =? mps)%nat && b_end (x_r st)
               else (length (content (x_r st)) =? 0)%nat) in *.
-    assert (Ea : abs st acc rt got lin lhost =
+    assert (Ea : abs st acc rt got lin lhost fl =
       {| s_pend := A ++ Wf; s_h := xorb (x_pid st) acc; s_cur := None;
-         s_wait := None; s_retry := RT; s_zlp := Z; s_in := lin; s_host := lhost |}).
+         s_wait := None; s_retry := RT; s_zlp := Z; s_in := lin; s_host := lhost; s_fl := fl |}).
     { unfold abs. rewrite Hf. subst Z. rewrite HLR. reflexivity. }
-    unfold c11_mon. rewrite He. rewrite Ea. cbn [negb].
+    assert (HS : rt = false -> (length (content (x_r st)) =? mps)%nat || (length (content (x_r st)) =? 0)%nat
+                               || b_end (x_r st) || (fl || i_flush i) = true)
+      by (intro Hr0; rewrite HLR; exact (shape_mono _ _ _ (i_flush i) Hsh Hr0)).
+    unfold c11_mon. rewrite He. rewrite (rdy_ok st _ rt got lin lhost fl i Hw). rewrite Ea. cbn [negb].
     assert (Eh : hs_phase {| s_pend := A ++ Wf; s_h := xorb (x_pid st) acc; s_cur := None;
-         s_wait := None; s_retry := RT; s_zlp := Z; s_in := lin; s_host := lhost |} i =
+         s_wait := None; s_retry := RT; s_zlp := Z; s_in := lin; s_host := lhost; s_fl := fl |} i =
          {| s_pend := A ++ Wf; s_h := xorb (x_pid st) acc; s_cur := None;
-         s_wait := None; s_retry := RT; s_zlp := Z; s_in := lin; s_host := lhost |}).
+         s_wait := None; s_retry := RT; s_zlp := Z; s_in := lin; s_host := lhost; s_fl := fl || i_flush i |}).
     { unfold hs_phase. cbn [s_pend s_h s_cur s_wait s_retry s_zlp s_in s_host].
       destruct (i_ack i || i_newtok i); reflexivity. }
     rewrite Eh. clear Eh.
@@ -399,12 +465,12 @@ Section Refine.
       + (* zero-length packet *)
         apply Nat.eqb_eq in E0.
         assert (Ec : content (x_r st) = []) by (apply content_fill0; exact E0).
-        pose proof (complete_abs Wf (x_pid st) acc rt (i_rcv i) (b_end (x_r st)) (content (x_r st)) None None lin lhost
-                      ltac:(rewrite HLR; lia) Hrt) as HC.
+        pose proof (complete_abs Wf (x_pid st) acc rt (i_rcv i) (b_end (x_r st)) (fl || i_flush i) (content (x_r st)) None None lin lhost
+                      ltac:(rewrite HLR; lia) Hrt HS) as HC.
         cbv zeta in HC. fold A RT Z in HC. rewrite <- Ec. rewrite HC. clear HC.
         rewrite Hfirst. cbn [andb negb]. rewrite add_stream_mk.
         exists (acc || i_rcv i), false, (i_rcv i), (lin_new st i lin),
-               (if i_rcv i && negb acc then lhost ++ content (x_r st) else lhost).
+               (if i_rcv i && negb acc then lhost ++ content (x_r st) else lhost), false.
         split; [|split].
         * f_equal. f_equal. unfold abs. cbn [x_fsm x_pid x_w x_r x_pos].
           rewrite content_clr_end, content_r_bg, Ec.
@@ -417,7 +483,7 @@ Section Refine.
       + (* data packet: first byte from the next cycle on *)
         apply Nat.eqb_neq in E0. unfold set_cur.
         cbn [s_pend s_h s_cur s_wait s_retry s_zlp s_in s_host]. rewrite add_stream_mk.
-        exists acc, rt, false, (lin_new st i lin), lhost.
+        exists acc, rt, false, (lin_new st i lin), lhost, (fl || i_flush i).
         split; [|split].
         * f_equal. f_equal. unfold abs. cbn [x_fsm x_pid x_w x_r x_pos]. rewrite content_r_bg.
           cbn [firstn]. fold A. change (b_fill (r_bg true mps st i)) with (b_fill (x_r st)).
@@ -427,10 +493,11 @@ Section Refine.
           -- subst Z. rewrite HLR. reflexivity.
         * unfold wfm. cbn [x_w x_r r_bg b_fill b_end b_mem]. repeat split; assumption.
         * unfold ghost. cbn [x_fsm x_first x_pos x_r r_bg b_fill b_rd b_mem r_addr].
-          unfold r_addr. rewrite Hf. repeat split; try assumption; try lia. apply rd_mem_0.
+          unfold r_addr. rewrite Hf. repeat split; try assumption; try lia;
+            try apply rd_mem_0; try (apply shape_mono; exact Hsh).
     - (* no token for us *)
       cbn [negb andb]. rewrite add_stream_mk.
-      exists acc, rt, false, (lin_new st i lin), lhost.
+      exists acc, rt, false, (lin_new st i lin), lhost, (fl || i_flush i).
       split; [|split].
       + f_equal. f_equal. unfold abs. cbn [x_fsm x_pid x_w x_r x_pos]. rewrite content_r_bg. fold A.
         change (b_fill (r_bg true mps st i)) with (b_fill (x_r st)).
@@ -439,7 +506,8 @@ Section Refine.
         * rewrite <- app_assoc. f_equal. symmetry. exact B1.
         * subst Z. rewrite HLR. reflexivity.
       + unfold wfm. cbn [x_w x_r r_bg b_fill b_end b_mem]. repeat split; assumption.
-      + unfold ghost. cbn [x_fsm x_first]. split; assumption.
+      + unfold ghost. cbn [x_fsm x_first x_r]. split; [assumption | split; [assumption|]].
+        apply shape_mono; exact Hsh.
   Qed.
 
   Lemma rd_mem_lt : forall m a, (a < mps)%nat -> rd_mem mps m a = nth a m 0%N.
@@ -454,16 +522,16 @@ Section Refine.
     match firstn n l with [] => true | _ => false end = (n =? 0)%nat.
   Proof. intros l n H. destruct n; [reflexivity|]. destruct l; [cbn in H; lia | reflexivity]. Qed.
 
-  Lemma step_SEND : forall st acc rt got lin lhost i, x_fsm st = SEND -> wfm st -> ghost st acc rt got ->
-    c11_env ep (abs st acc rt got lin lhost) i = true ->
-    exists acc' rt' got' lin' lhost',
-      c11_mon mps ep (abs st acc rt got lin lhost) i (ix_outf mps ep st i)
-      = Some (abs (nxt st i) acc' rt' got' lin' lhost', true)
-      /\ wfm (nxt st i) /\ ghost (nxt st i) acc' rt' got'.
+  Lemma step_SEND : forall st acc rt got lin lhost fl i, x_fsm st = SEND -> wfm st -> ghost st acc rt got fl ->
+    c11_env ep (abs st acc rt got lin lhost fl) i = true ->
+    exists acc' rt' got' lin' lhost' fl',
+      c11_mon mps ep (abs st acc rt got lin lhost fl) i (ix_outf mps ep st i)
+      = Some (abs (nxt st i) acc' rt' got' lin' lhost' fl', true)
+      /\ wfm (nxt st i) /\ ghost (nxt st i) acc' rt' got' fl'.
   Proof.
-    intros st acc rt got lin lhost i Hf Hw Hg He.
+    intros st acc rt got lin lhost fl i Hf Hw Hg He.
     destruct (bg_write st i Hw) as (B1 & B2 & B3 & B4 & B5 & B6).
-    unfold ghost in Hg. rewrite Hf in Hg. destruct Hg as (Hrt & Hpos & Hfirst & Hrd).
+    unfold ghost in Hg. rewrite Hf in Hg. destruct Hg as (Hrt & Hpos & Hfirst & Hrd & Hsh).
     destruct (env_facts _ _ He) as (Hclr & _ & _).
     pose proof Hw as (Hlw & Hlr & Hfw & Hfr & Hew).
     pose proof (content_length (x_r st) ltac:(lia)) as HLR.
@@ -473,19 +541,22 @@ Section Refine.
     set (Z := if acc then (length (content (x_r st)) =? mps)%nat && b_end (x_r st)
               else (length (content (x_r st)) =? 0)%nat) in *.
     set (BS := firstn (x_pos st) (content (x_r st))) in *.
-    assert (Ea : abs st acc rt got lin lhost =
+    assert (Ea : abs st acc rt got lin lhost fl =
       {| s_pend := A ++ Wf; s_h := xorb (x_pid st) acc; s_cur := Some BS;
-         s_wait := None; s_retry := RT; s_zlp := Z; s_in := lin; s_host := lhost |}).
+         s_wait := None; s_retry := RT; s_zlp := Z; s_in := lin; s_host := lhost; s_fl := fl |}).
     { unfold abs. rewrite Hf. subst Z. rewrite HLR. reflexivity. }
     assert (Ebs : BS ++ [b_rd (x_r st)] = firstn (S (x_pos st)) (content (x_r st))).
     { subst BS. unfold content. rewrite !firstn_firstn_le by lia. rewrite Hrd. apply firstn_snoc_nth. lia. }
     assert (Enil : match BS with [] => true | _ => false end = (x_pos st =? 0)%nat)
       by (apply firstn_nil_iff; lia).
-    unfold c11_mon. rewrite He. rewrite Ea. cbn [negb].
+    assert (HS : rt = false -> (length (content (x_r st)) =? mps)%nat || (length (content (x_r st)) =? 0)%nat
+                               || b_end (x_r st) || (fl || i_flush i) = true)
+      by (intro Hr0; rewrite HLR; exact (shape_mono _ _ _ (i_flush i) Hsh Hr0)).
+    unfold c11_mon. rewrite He. rewrite (rdy_ok st _ rt got lin lhost fl i Hw). rewrite Ea. cbn [negb].
     assert (Eh : hs_phase {| s_pend := A ++ Wf; s_h := xorb (x_pid st) acc; s_cur := Some BS;
-         s_wait := None; s_retry := RT; s_zlp := Z; s_in := lin; s_host := lhost |} i =
+         s_wait := None; s_retry := RT; s_zlp := Z; s_in := lin; s_host := lhost; s_fl := fl |} i =
          {| s_pend := A ++ Wf; s_h := xorb (x_pid st) acc; s_cur := Some BS;
-         s_wait := None; s_retry := RT; s_zlp := Z; s_in := lin; s_host := lhost |}).
+         s_wait := None; s_retry := RT; s_zlp := Z; s_in := lin; s_host := lhost; s_fl := fl || i_flush i |}).
     { unfold hs_phase. cbn [s_pend s_h s_cur s_wait s_retry s_zlp s_in s_host].
       destruct (i_ack i || i_newtok i); reflexivity. }
     rewrite Eh. clear Eh.
@@ -502,11 +573,11 @@ Section Refine.
         assert (Efull : firstn (S (x_pos st)) (content (x_r st)) = content (x_r st)).
         { replace (S (x_pos st)) with (length (content (x_r st))) by lia. apply firstn_all. }
         rewrite Efull.
-        pose proof (complete_abs Wf (x_pid st) acc rt (i_rcv i) (b_end (x_r st)) (content (x_r st)) (Some BS) None lin lhost
-                      ltac:(rewrite HLR; lia) Hrt) as HC.
+        pose proof (complete_abs Wf (x_pid st) acc rt (i_rcv i) (b_end (x_r st)) (fl || i_flush i) (content (x_r st)) (Some BS) None lin lhost
+                      ltac:(rewrite HLR; lia) Hrt HS) as HC.
         cbv zeta in HC. fold A RT Z in HC. rewrite HC. clear HC. cbn [andb]. rewrite add_stream_mk.
         exists (acc || i_rcv i), false, (i_rcv i), (lin_new st i lin),
-               (if i_rcv i && negb acc then lhost ++ content (x_r st) else lhost).
+               (if i_rcv i && negb acc then lhost ++ content (x_r st) else lhost), false.
         split; [|split].
         * f_equal. f_equal. unfold abs. cbn [x_fsm x_pid x_w x_r x_pos]. rewrite content_r_bg.
           change (b_fill (r_bg true mps st i)) with (b_fill (x_r st)).
@@ -520,7 +591,7 @@ Section Refine.
         assert (Hlen : (length (firstn (S (x_pos st)) (content (x_r st))) <? mps)%nat = true).
         { apply Nat.ltb_lt. rewrite firstn_length. lia. }
         rewrite Hlen. cbn [andb].
-        exists acc, rt, false, (lin_new st i lin), lhost.
+        exists acc, rt, false, (lin_new st i lin), lhost, (fl || i_flush i).
         split; [|split].
         * f_equal. f_equal. unfold abs. cbn [x_fsm x_pid x_w x_r x_pos]. rewrite content_r_bg.
           change (b_fill (r_bg true mps st i)) with (b_fill (x_r st)).
@@ -531,11 +602,11 @@ Section Refine.
           -- subst Z. rewrite HLR. reflexivity.
         * unfold wfm. cbn [x_w x_r r_bg b_fill b_end b_mem]. repeat split; assumption.
         * unfold ghost. cbn [x_fsm x_first x_pos x_r r_bg b_fill b_rd b_mem].
-          unfold r_addr. rewrite Hf, Erdy. repeat split; try assumption; try lia.
-          apply rd_mem_lt. lia.
+          unfold r_addr. rewrite Hf, Erdy. repeat split; try assumption; try lia;
+            try (apply rd_mem_lt; lia); try (apply shape_mono; exact Hsh).
     - (* transmitter not ready: nothing moves *)
       cbn [andb]. rewrite add_stream_mk.
-      exists acc, rt, false, (lin_new st i lin), lhost.
+      exists acc, rt, false, (lin_new st i lin), lhost, (fl || i_flush i).
       split; [|split].
       + f_equal. f_equal. unfold abs. cbn [x_fsm x_pid x_w x_r x_pos]. rewrite content_r_bg.
         change (b_fill (r_bg true mps st i)) with (b_fill (x_r st)).
@@ -545,7 +616,8 @@ Section Refine.
         * subst Z. rewrite HLR. reflexivity.
       + unfold wfm. cbn [x_w x_r r_bg b_fill b_end b_mem]. repeat split; assumption.
       + unfold ghost. cbn [x_fsm x_first x_pos x_r r_bg b_fill b_rd b_mem].
-        unfold r_addr. rewrite Hf, Erdy. repeat split; try assumption. apply rd_mem_lt. lia.
+        unfold r_addr. rewrite Hf, Erdy. repeat split; try assumption;
+          try (apply rd_mem_lt; lia); try (apply shape_mono; exact Hsh).
   Qed.
 
   Lemma ready_next : forall st i, wfm st -> w_ready mps st = true -> packet_ready mps st i = false ->
@@ -578,14 +650,14 @@ Section Refine.
       cbn [negb andb] in Hrdy. destruct (b_end (x_w st)); [apply Hew; reflexivity | discriminate].
   Qed.
 
-  Lemma step_WFA : forall st acc rt got lin lhost i, x_fsm st = WFA -> wfm st -> ghost st acc rt got ->
-    c11_env ep (abs st acc rt got lin lhost) i = true ->
-    exists acc' rt' got' lin' lhost',
-      c11_mon mps ep (abs st acc rt got lin lhost) i (ix_outf mps ep st i)
-      = Some (abs (nxt st i) acc' rt' got' lin' lhost', true)
-      /\ wfm (nxt st i) /\ ghost (nxt st i) acc' rt' got'.
+  Lemma step_WFA : forall st acc rt got lin lhost fl i, x_fsm st = WFA -> wfm st -> ghost st acc rt got fl ->
+    c11_env ep (abs st acc rt got lin lhost fl) i = true ->
+    exists acc' rt' got' lin' lhost' fl',
+      c11_mon mps ep (abs st acc rt got lin lhost fl) i (ix_outf mps ep st i)
+      = Some (abs (nxt st i) acc' rt' got' lin' lhost' fl', true)
+      /\ wfm (nxt st i) /\ ghost (nxt st i) acc' rt' got' fl'.
   Proof.
-    intros st acc rt got lin lhost i Hf Hw Hg He.
+    intros st acc rt got lin lhost fl i Hf Hw Hg He.
     destruct (bg_write st i Hw) as (B1 & B2 & B3 & B4 & B5 & B6).
     unfold ghost in Hg. rewrite Hf in Hg. destruct Hg as (Hgot & Hfirst).
     pose proof Hw as (Hlw & Hlr & Hfw & Hfr & Hew).
@@ -594,14 +666,14 @@ Section Refine.
     set (Wf := flag (content (x_w st)) (b_end (x_w st))) in *.
     set (Z := if acc then (length (content (x_r st)) =? mps)%nat && b_end (x_r st)
               else (length (content (x_r st)) =? 0)%nat) in *.
-    assert (Ea : abs st acc rt got lin lhost =
+    assert (Ea : abs st acc rt got lin lhost fl =
       {| s_pend := A ++ Wf; s_h := xorb (x_pid st) acc; s_cur := None;
          s_wait := Some (b2n (x_pid st), content (x_r st), got); s_retry := None; s_zlp := Z;
-         s_in := lin; s_host := lhost |}).
+         s_in := lin; s_host := lhost; s_fl := fl |}).
     { unfold abs. rewrite Hf. subst Z. rewrite HLR. reflexivity. }
     destruct (env_facts _ _ He) as (Hclr & Hnt & Hack).
     rewrite Ea in Hack. cbn [s_wait] in Hack.
-    unfold c11_mon. rewrite He. rewrite Ea. cbn [negb].
+    unfold c11_mon. rewrite He. rewrite (rdy_ok st _ rt got lin lhost fl i Hw). rewrite Ea. cbn [negb].
     replace (o_ready (ix_outf mps ep st i)) with (w_ready mps st) by (unfold ix_outf; reflexivity).
     change (i_valid i && w_ready mps st) with (w_en mps st i).
     unfold tx_phase, hs_phase, ix_outf. rewrite Hf.
@@ -615,7 +687,7 @@ Section Refine.
       cbn [orb andb negb]. subst A. cbn [app].
       destruct (follow_up mps st) eqn:Efu.
       + (* a zero-length packet has to follow *)
-        exists false, false, false, (lin_new st i lin), lhost.
+        exists false, false, false, (lin_new st i lin), lhost, (fl || i_flush i).
         split; [|split].
         * f_equal. f_equal. unfold abs. cbn [x_fsm x_pid x_w x_r x_pos].
           rewrite content_set_fill0. cbn [set_fill b_fill b_end flag app].
@@ -624,11 +696,12 @@ Section Refine.
           -- destruct (x_pid st); reflexivity.
           -- subst Z. rewrite HLR. exact Efu.
         * unfold wfm. cbn [x_w x_r set_fill r_bg b_fill b_end b_mem]. repeat split; try assumption; lia.
-        * unfold ghost. cbn [x_fsm x_first]. split; [discriminate | exact Hfirst].
+        * unfold ghost. cbn [x_fsm x_first x_r]. split; [discriminate | split; [exact Hfirst|]].
+          intros _. unfold set_fill. cbn [b_fill]. rewrite orb_true_r. reflexivity.
       + destruct (negb (w_ready mps st) || packet_ready mps st i) eqn:Esw.
         * (* the next packet is waiting: swap the buffers *)
           pose proof (fill_ge1 st i Hw Esw) as Hf1.
-          exists false, false, false, (lin_new st i lin), lhost.
+          exists false, false, false, (lin_new st i lin), lhost, (fl || i_flush i).
           split; [|split].
           -- f_equal. f_equal. unfold abs. cbn [x_fsm x_pid x_w x_r x_pos].
              rewrite content_clr_end, content_set_fill0. cbn [flag]. rewrite app_nil_r.
@@ -639,10 +712,11 @@ Section Refine.
                 destruct (b_fill (w_bg mps st i)); [lia | reflexivity].
           -- unfold wfm. cbn [x_w x_r clr_end set_fill r_bg b_fill b_end b_mem].
              repeat split; try assumption; try lia.
-          -- unfold ghost. cbn [x_fsm x_first]. split; [discriminate | exact Hfirst].
+          -- unfold ghost. cbn [x_fsm x_first x_r]. split; [discriminate | split; [exact Hfirst|]].
+             apply swap_shape; [exact Hw | exact Esw].
         * (* nothing to send yet *)
           apply orb_false_iff in Esw as [Erdy Epr]. apply negb_false_iff in Erdy.
-          exists true, false, false, (lin_new st i lin), lhost.
+          exists true, false, false, (lin_new st i lin), lhost, (fl || i_flush i).
           split; [|split].
           -- f_equal. f_equal. unfold abs. cbn [x_fsm x_pid x_w x_r x_pos].
              cbn [set_fill b_fill b_end app].
@@ -656,7 +730,7 @@ Section Refine.
     - cbn [orb andb negb]. rewrite andb_true_r.
       destruct (i_newtok i) eqn:Ent.
       + (* time-out: the host moved on without ACK; the packet will be sent again *)
-        exists acc, true, false, (lin_new st i lin), lhost.
+        exists acc, true, false, (lin_new st i lin), lhost, (fl || i_flush i).
         split; [|split].
         * f_equal. f_equal. unfold abs. cbn [x_fsm x_pid x_w x_r x_pos]. rewrite content_r_bg.
           change (b_fill (r_bg true mps st i)) with (b_fill (x_r st)).
@@ -665,8 +739,9 @@ Section Refine.
           -- rewrite <- app_assoc. f_equal. symmetry. exact B1.
           -- subst Z. rewrite HLR. reflexivity.
         * unfold wfm. cbn [x_w x_r r_bg b_fill b_end b_mem]. repeat split; assumption.
-        * unfold ghost. cbn [x_fsm x_first]. split; [reflexivity | exact Hfirst].
-      + exists acc, false, got, (lin_new st i lin), lhost.
+        * unfold ghost. cbn [x_fsm x_first x_r]. split; [reflexivity | split; [exact Hfirst|]].
+          intro Hc. discriminate Hc.
+      + exists acc, false, got, (lin_new st i lin), lhost, (fl || i_flush i).
         split; [|split].
         * f_equal. f_equal. unfold abs. cbn [x_fsm x_pid x_w x_r x_pos]. rewrite content_r_bg.
           change (b_fill (r_bg true mps st i)) with (b_fill (x_r st)).
@@ -678,14 +753,14 @@ Section Refine.
         * unfold ghost. cbn [x_fsm x_first]. split; assumption.
   Qed.
 
-  Lemma step_ok : forall st acc rt got lin lhost i, wfm st -> ghost st acc rt got ->
-    c11_env ep (abs st acc rt got lin lhost) i = true ->
-    exists acc' rt' got' lin' lhost',
-      c11_mon mps ep (abs st acc rt got lin lhost) i (ix_outf mps ep st i)
-      = Some (abs (nxt st i) acc' rt' got' lin' lhost', true)
-      /\ wfm (nxt st i) /\ ghost (nxt st i) acc' rt' got'.
+  Lemma step_ok : forall st acc rt got lin lhost fl i, wfm st -> ghost st acc rt got fl ->
+    c11_env ep (abs st acc rt got lin lhost fl) i = true ->
+    exists acc' rt' got' lin' lhost' fl',
+      c11_mon mps ep (abs st acc rt got lin lhost fl) i (ix_outf mps ep st i)
+      = Some (abs (nxt st i) acc' rt' got' lin' lhost' fl', true)
+      /\ wfm (nxt st i) /\ ghost (nxt st i) acc' rt' got' fl'.
   Proof.
-    intros st acc rt got lin lhost i Hw Hg He. destruct (x_fsm st) eqn:Hf.
+    intros st acc rt got lin lhost fl i Hw Hg He. destruct (x_fsm st) eqn:Hf.
     - apply step_WFD; assumption.
     - apply step_WTS; assumption.
     - apply step_SEND; assumption.
@@ -696,41 +771,41 @@ Section Refine.
   Proof. intros s i o H. unfold c11_mon. rewrite H. reflexivity. Qed.
 
   (* the monitor never reports a violation on a run of the model *)
-  Theorem refines_from : forall ins st acc rt got lin lhost, wfm st -> ghost st acc rt got ->
-    c11_check mps ep (abs st acc rt got lin lhost) (combine ins (ix_run true true mps ep st ins)) = true.
+  Theorem refines_from : forall ins st acc rt got lin lhost fl, wfm st -> ghost st acc rt got fl ->
+    c11_check mps ep (abs st acc rt got lin lhost fl) (combine ins (ix_run true true mps ep st ins)) = true.
   Proof.
-    induction ins as [|i t IH]; intros st acc rt got lin lhost Hw Hg; [reflexivity|].
+    induction ins as [|i t IH]; intros st acc rt got lin lhost fl Hw Hg; [reflexivity|].
     cbn [ix_run combine c11_check].
-    destruct (c11_env ep (abs st acc rt got lin lhost) i) eqn:He.
-    - destruct (step_ok st acc rt got lin lhost i Hw Hg He) as (a' & r' & g' & l' & h' & E & Hw' & Hg').
+    destruct (c11_env ep (abs st acc rt got lin lhost fl) i) eqn:He.
+    - destruct (step_ok st acc rt got lin lhost fl i Hw Hg He) as (a' & r' & g' & l' & h' & f' & E & Hw' & Hg').
       rewrite E. cbn [andb]. apply IH; assumption.
     - rewrite mon_env_false by exact He. reflexivity.
   Qed.
 
   (* ... and the monitor's state stays an abstraction of the model's state *)
-  Lemma state_abs_from : forall ins st acc rt got lin lhost, wfm st -> ghost st acc rt got ->
-    exists st' acc' rt' got' lin' lhost',
-      c11_state mps ep (abs st acc rt got lin lhost) (combine ins (ix_run true true mps ep st ins))
-      = abs st' acc' rt' got' lin' lhost' /\ wfm st'.
+  Lemma state_abs_from : forall ins st acc rt got lin lhost fl, wfm st -> ghost st acc rt got fl ->
+    exists st' acc' rt' got' lin' lhost' fl',
+      c11_state mps ep (abs st acc rt got lin lhost fl) (combine ins (ix_run true true mps ep st ins))
+      = abs st' acc' rt' got' lin' lhost' fl' /\ wfm st'.
   Proof.
-    induction ins as [|i t IH]; intros st acc rt got lin lhost Hw Hg.
-    - exists st, acc, rt, got, lin, lhost. split; [reflexivity | exact Hw].
+    induction ins as [|i t IH]; intros st acc rt got lin lhost fl Hw Hg.
+    - exists st, acc, rt, got, lin, lhost, fl. split; [reflexivity | exact Hw].
     - cbn [ix_run combine c11_state].
-      destruct (c11_env ep (abs st acc rt got lin lhost) i) eqn:He.
-      + destruct (step_ok st acc rt got lin lhost i Hw Hg He) as (a' & r' & g' & l' & h' & E & Hw' & Hg').
+      destruct (c11_env ep (abs st acc rt got lin lhost fl) i) eqn:He.
+      + destruct (step_ok st acc rt got lin lhost fl i Hw Hg He) as (a' & r' & g' & l' & h' & f' & E & Hw' & Hg').
         rewrite E. apply IH; assumption.
       + rewrite mon_env_false by exact He.
-        exists st, acc, rt, got, lin, lhost. split; [reflexivity | exact Hw].
+        exists st, acc, rt, got, lin, lhost, fl. split; [reflexivity | exact Hw].
   Qed.
 
   Lemma wfm_init : wfm (ix_init mps).
   Proof. unfold wfm, ix_init, buf0. cbn [x_w x_r b_mem b_fill b_end]. rewrite repeat_length. repeat split; try lia. Qed.
 
-  Lemma ghost_init : ghost (ix_init mps) true false false.
+  Lemma ghost_init : ghost (ix_init mps) true false false false.
   Proof. unfold ghost, ix_init, w_ready, buf0. cbn [x_fsm x_w x_r x_first b_fill b_end]. repeat split.
          destruct mps; [lia | reflexivity]. Qed.
 
-  Lemma abs_init : abs (ix_init mps) true false false [] [] = sp_init.
+  Lemma abs_init : abs (ix_init mps) true false false [] [] false = sp_init.
   Proof. unfold abs, ix_init, sp_init, buf0, content. cbn [x_fsm x_pid x_w x_r b_fill b_end b_mem firstn flag app xorb].
          rewrite andb_false_r. reflexivity. Qed.
 
@@ -738,10 +813,10 @@ Section Refine.
     c11_check mps ep sp_init (combine ins (ix_run true true mps ep (ix_init mps) ins)) = true.
   Proof. intro ins. rewrite <- abs_init. apply refines_from; [apply wfm_init | apply ghost_init]. Qed.
 
-  Lemma abs_backlog : forall st acc rt got lin lhost, wfm st ->
-    (length (s_pend (abs st acc rt got lin lhost)) <= 2 * mps)%nat.
+  Lemma abs_backlog : forall st acc rt got lin lhost fl, wfm st ->
+    (length (s_pend (abs st acc rt got lin lhost fl)) <= 2 * mps)%nat.
   Proof.
-    intros st acc rt got lin lhost (Hlw & Hlr & Hfw & Hfr & Hew). unfold abs. cbn [s_pend].
+    intros st acc rt got lin lhost fl (Hlw & Hlr & Hfw & Hfr & Hew). unfold abs. cbn [s_pend].
     rewrite app_length, length_flag, content_length by lia.
     destruct acc; [cbn [length]; lia|]. rewrite length_flag, content_length by lia. lia.
   Qed.
@@ -750,8 +825,8 @@ Section Refine.
     (length (s_pend (c11_state mps ep sp_init (combine ins (ix_run true true mps ep (ix_init mps) ins)))) <= 2 * mps)%nat.
   Proof.
     intro ins. rewrite <- abs_init.
-    destruct (state_abs_from ins (ix_init mps) true false false [] [] wfm_init ghost_init)
-      as (st' & a' & r' & g' & l' & h' & E & Hw').
+    destruct (state_abs_from ins (ix_init mps) true false false [] [] false wfm_init ghost_init)
+      as (st' & a' & r' & g' & l' & h' & f' & E & Hw').
     rewrite E. apply abs_backlog. exact Hw'.
   Qed.
 End Refine.
@@ -784,6 +859,7 @@ Lemma mon_logs : forall mps ep s i o s', c11_mon mps ep s i o = Some (s', true) 
 Proof.
   intros mps ep s i o s' H L. unfold c11_mon in H.
   destruct (negb (c11_env ep s i)); [discriminate|].
+  destruct (negb (ready_ok mps s o)); [discriminate|].
   destruct (tx_phase mps ep s (hs_phase s i) i o) as [s2 ok] eqn:Et.
   injection H as <- ->.
   assert (L1 : logs_ok (hs_phase s i)) by exact L.
@@ -815,6 +891,9 @@ Lemma mon_in_log : forall mps ep s i o s' ok, c11_mon mps ep s i o = Some (s', o
 Proof.
   intros mps ep s i o s' ok H. unfold c11_mon in H.
   destruct (negb (c11_env ep s i)); [discriminate|].
+  destruct (negb (ready_ok mps s o)) eqn:Er.
+  { injection H as <- _. apply negb_true_iff in Er. unfold ready_ok in Er. apply orb_false_iff in Er as [_ Er].
+    rewrite Er, andb_false_r, app_nil_r. reflexivity. }
   destruct (tx_phase mps ep s (hs_phase s i) i o) as [s2 ok2] eqn:Et.
   injection H as <- _.
   assert (E : s_in s2 = s_in s).
